@@ -46,6 +46,29 @@ theorem selectFrom_spec (cands : List (Rat × Nat)) (N : ℕ) :
   · refine ⟨cands, [], by simp [h], by simp, ?_, by simp⟩
     omega
 
+/-- with pairwise distinct distances there is no tie to break: the sorted candidate list does
+not depend on the order in which the candidates were stored -/
+theorem sortP_eq_of_perm (c₁ c₂ : List (Rat × ℕ)) (h : c₁.Perm c₂)
+    (hd : (c₁.map (·.1)).Nodup) : sortP c₁ = sortP c₂ := by
+  apply List.Perm.eq_of_pairwise (le := leP) _ (sortP_pairwise c₁) (sortP_pairwise c₂)
+    ((sortP_perm c₁).trans (h.trans (sortP_perm c₂).symm))
+  intro a b ha hb hab hba
+  have ha' : a ∈ c₁ := (sortP_perm c₁).mem_iff.1 ha
+  have hb' : b ∈ c₁ := h.mem_iff.2 ((sortP_perm c₂).mem_iff.1 hb)
+  exact List.inj_on_of_nodup_map hd ha' hb' (le_antisymm hab hba)
+
+/-- the selection from candidates stored in another order is the same up to order, provided the
+candidate distances are pairwise distinct -/
+theorem selectFrom_perm (c₁ c₂ : List (Rat × ℕ)) (h : c₁.Perm c₂)
+    (hd : (c₁.map (·.1)).Nodup) (N : ℕ) : (selectFrom c₁ N).Perm (selectFrom c₂ N) := by
+  unfold selectFrom
+  rw [← h.length_eq]
+  by_cases hl : c₁.length > N
+  · simp only [hl, if_true]
+    rw [sortP_eq_of_perm c₁ c₂ h hd]
+  · simp only [hl, if_false]
+    exact h.map _
+
 theorem mem_candidatesDense (row : List Rat) (maxDist : Rat) (d : Rat) (i : ℕ) :
     (d, i) ∈ candidatesDense row maxDist ↔ (row[i]? = some d ∧ d ≤ maxDist) := by
   unfold candidatesDense
